@@ -283,6 +283,7 @@ package aml
 //@   ensures wfR(&p.r)
 //@ func (p *Parser) parseDeferredBlocks(objIndex uint32) (res parseResult)
 //@   property C11
+//@   concrete (*Parser).parseDeferredBlocks
 //@   requires walkOK(p) && live(p.objTree, objIndex)
 //@   at entry: ghost deferVisits = deferVisits + 1
 //@   modifies *
@@ -304,3 +305,63 @@ package aml
 //@   ensures nilobj: obj == nil ==> r == InvalidIndex
 //@   ensures named: r != InvalidIndex ==> live(tree, r) && ob(tree, r).opcode != pOpScope && pOpcodeTable[ob(tree, r).infoIndex].flags&pOpFlagNamed != 0
 //@   loop 1 (ancestorIndex != InvalidIndex) invariant ancestorIndex != InvalidIndex ==> live(tree, ancestorIndex)
+
+// ---- the multi-pass strategy of ParseAML (C11) -------------------------------------------------
+// Each pass is seen here only as an event: its number is appended to a ghost log, its result is
+// arbitrary, and a pass that starts after some pass has failed is counted (ASSUMED abstraction;
+// what the passes do to the tree is not part of this contract). Pass numbers: 1 parseObjectList,
+// 2 connectNamedObjArgs, 3 mergeScopeDirectives, 4 relocateNamedObjects, 5 parseDeferredBlocks,
+// 6 resolveMethodCalls, 7 connectNonNamedObjArgs.
+//@ ghost passes uintptr
+//@ ghost passLog map[uintptr]uint8
+//@ ghost passFailed bool
+//@ ghost passAfterFail uintptr
+//@ pred passDone(k uint8, failed bool) = passes == old(passes) + 1 && passLog == upd(old(passLog), old(passes), k) && passFailed == (old(passFailed) || failed) && passAfterFail == old(passAfterFail) + ite(old(passFailed), 1, 0)
+//@ func (p *Parser) init~callers(tableHandle uint8, tableName string, header *table.SDTHeader)
+//@   trusted
+//@   modifies *
+//@ func (p *Parser) scopeEnter~callers(index uint32)
+//@   trusted
+//@   modifies *
+//@ func (p *Parser) parseObjectList~callers() (res parseResult)
+//@   trusted
+//@   modifies *, passes, passLog, passFailed, passAfterFail
+//@   ensures passDone(1, res == parseResultFailed)
+//@ func (p *Parser) connectNamedObjArgs~callers(objIndex uint32) (res parseResult)
+//@   trusted
+//@   modifies *, passes, passLog, passFailed, passAfterFail
+//@   ensures passDone(2, res != parseResultOk)
+//@ func (p *Parser) mergeScopeDirectives~callers(objIndex uint32) (res parseResult)
+//@   trusted
+//@   modifies *, passes, passLog, passFailed, passAfterFail
+//@   ensures passDone(3, res == parseResultFailed) && p.resolvePasses == old(p.resolvePasses)
+//@ func (p *Parser) relocateNamedObjects~callers(objIndex uint32) (res parseResult)
+//@   trusted
+//@   modifies *, passes, passLog, passFailed, passAfterFail
+//@   ensures passDone(4, res == parseResultFailed) && p.resolvePasses == old(p.resolvePasses)
+//@ func (p *Parser) parseDeferredBlocks~callers(objIndex uint32) (res parseResult)
+//@   trusted
+//@   modifies *, passes, passLog, passFailed, passAfterFail
+//@   ensures passDone(5, res != parseResultOk) && p.resolvePasses == old(p.resolvePasses)
+//@ func (p *Parser) resolveMethodCalls~callers(objIndex uint32) (res parseResult)
+//@   trusted
+//@   modifies *, passes, passLog, passFailed, passAfterFail
+//@   ensures passDone(6, res != parseResultOk) && p.resolvePasses == old(p.resolvePasses)
+//@ func (p *Parser) connectNonNamedObjArgs~callers(objIndex uint32) (res parseResult)
+//@   trusted
+//@   modifies *, passes, passLog, passFailed, passAfterFail
+//@   ensures passDone(7, res != parseResultOk) && p.resolvePasses == old(p.resolvePasses)
+
+// ParseAML: success means that the passes ran in exactly this order - object list, named-object
+// arguments, then k >= 1 rounds of (merge scopes, relocate named objects), deferred blocks,
+// method calls, remaining arguments - and none of them failed; the first failing pass ends the
+// parse with errParsingAML and no further pass is started.
+//@ func (p *Parser) ParseAML(tableHandle uint8, tableName string, header *table.SDTHeader) (err *kernel.Error)
+//@   property C11
+//@   requires p != nil && !passFailed && passes < 0x1000000000000
+//@   modifies *, passes, passLog, passFailed, passAfterFail
+//@   ensures stop: passAfterFail == old(passAfterFail)
+//@   ensures errs: err != nil ==> err == errParsingAML && passFailed
+//@   ensures clean: err == nil ==> !passFailed && p.resolvePasses >= 1
+//@   ensures order: err == nil ==> passes == old(passes) + 2 + 2*uintptr(p.resolvePasses) + 3 && passLog[old(passes)] == 1 && passLog[old(passes)+1] == 2 && forall(j, uintptr, j < uintptr(p.resolvePasses) ==> passLog[old(passes) + 2 + 2*j] == 3 && passLog[old(passes) + 3 + 2*j] == 4) && passLog[passes - 3] == 5 && passLog[passes - 2] == 6 && passLog[passes - 1] == 7
+//@   loop 1 invariant p.resolvePasses >= 1 && p.resolvePasses < 0x7fffffff && !passFailed && passAfterFail == old(passAfterFail) && passes == old(passes) + 2 + 2*uintptr(p.resolvePasses - 1) && passLog[old(passes)] == 1 && passLog[old(passes)+1] == 2 && forall(j, uintptr, j < uintptr(p.resolvePasses - 1) ==> passLog[old(passes) + 2 + 2*j] == 3 && passLog[old(passes) + 3 + 2*j] == 4)
